@@ -73,7 +73,7 @@ theorem scanWhile_stops (buf : Buf) (cond : UInt8 → Bool) :
       · simp only [hc, Bool.false_eq_true, if_false] at h ⊢
         exact ⟨b, hb, by simpa using hc⟩
 
-theorem scanWhile_first (buf : Buf) (cond : UInt8 → Bool) (fuel pos : Nat) (b : UInt8) (hb : buf[pos]? = some b)
+theorem scanWhile_first_xt (buf : Buf) (cond : UInt8 → Bool) (fuel pos : Nat) (b : UInt8) (hb : buf[pos]? = some b)
     (hc : cond b = true) : pos + 1 ≤ scanWhile buf cond (fuel + 1) pos := by
   have hlt : pos < buf.size := by
     rcases Nat.lt_or_ge pos buf.size with h' | h'
@@ -85,7 +85,7 @@ theorem scanWhile_first (buf : Buf) (cond : UInt8 → Bool) (fuel pos : Nat) (b 
 /-- a position inside the buffer whose byte is not white-space -/
 def TokAt (buf : Buf) (p : Nat) : Prop := p < buf.size ∧ ∃ b, buf[p]? = some b ∧ isWhitespace b = false
 
-theorem skipWhitespace_spec {buf : Buf} {pos p : Nat} (h : skipWhitespace buf pos = .ok p) : pos ≤ p ∧ TokAt buf p := by
+theorem skipWhitespace_spec_xt {buf : Buf} {pos p : Nat} (h : skipWhitespace buf pos = .ok p) : pos ≤ p ∧ TokAt buf p := by
   unfold skipWhitespace boundary at h
   by_cases hp : pos > buf.size
   · simp [hp] at h
@@ -127,7 +127,7 @@ theorem findEol_ge (buf : Buf) : ∀ (fuel p q : Nat), findEol buf fuel p = some
 
 /-- the comment loop of `next_word`: with fuel that covers the rest of the buffer it never runs out, and it
     ends at the start of a token -/
-theorem skipComments_spec (buf : Buf) :
+theorem skipComments_spec_xt (buf : Buf) :
     ∀ (fuel pos : Nat), TokAt buf pos → buf.size - pos ≤ fuel →
       skipComments buf fuel pos ≠ .oof ∧ ∀ q, skipComments buf fuel pos = .ok q → pos ≤ q ∧ TokAt buf q := by
   intro fuel
@@ -150,7 +150,7 @@ theorem skipComments_spec (buf : Buf) :
         intro pos2 hpos2
         cases hs : skipWhitespace buf pos2 with
         | ok p =>
-          obtain ⟨hle, htp⟩ := skipWhitespace_spec hs
+          obtain ⟨hle, htp⟩ := skipWhitespace_spec_xt hs
           simp only [Out.bind_ok]
           obtain ⟨a, b⟩ := ih p htp (by have := htp.1; omega)
           refine ⟨a, fun q hq => ?_⟩
@@ -168,14 +168,14 @@ theorem skipComments_spec (buf : Buf) :
     · simp only [hc, Bool.false_eq_true, if_false]
       exact ⟨by simp, fun q hq => by simp at hq; subst hq; exact ⟨Nat.le_refl _, ht⟩⟩
 
-theorem tokenStart_spec (buf : Buf) (pos : Nat) :
+theorem tokenStart_spec_xt (buf : Buf) (pos : Nat) :
     tokenStart buf pos ≠ .oof ∧ ∀ q, tokenStart buf pos = .ok q → pos ≤ q ∧ TokAt buf q := by
   unfold tokenStart
   cases hs : skipWhitespace buf pos with
   | ok p0 =>
-    obtain ⟨hle, ht⟩ := skipWhitespace_spec hs
+    obtain ⟨hle, ht⟩ := skipWhitespace_spec_xt hs
     simp only [Out.bind_ok]
-    obtain ⟨a, b⟩ := skipComments_spec buf buf.size p0 ht (by omega)
+    obtain ⟨a, b⟩ := skipComments_spec_xt buf buf.size p0 ht (by omega)
     exact ⟨a, fun q hq => by have := b q hq; exact ⟨by omega, this.2⟩⟩
   | err => simp
   | panic => simp
@@ -271,7 +271,7 @@ theorem lexemeAt_progress {buf : Buf} {start : Nat} {w : Nat × Nat} (ht : TokAt
       unfold scanRegular
       obtain ⟨k, hk⟩ : ∃ k, buf.size - start = k + 1 := ⟨buf.size - start - 1, by omega⟩
       rw [hk]
-      exact scanWhile_first buf isRegular k start b hb hreg
+      exact scanWhile_first_xt buf isRegular k start b hb hreg
     have := newSubstr_eq (by omega) h
     subst this; simp; omega
 
@@ -283,7 +283,7 @@ theorem nextWord_ne_oof (buf : Buf) (pos : Nat) : nextWord buf pos ≠ .oof := b
     | ok s => simp only [Out.bind_ok]; exact lexemeAt_ne_oof _ _
     | err => simp
     | panic => simp
-    | oof => exact absurd ht (tokenStart_spec buf pos).1
+    | oof => exact absurd ht (tokenStart_spec_xt buf pos).1
 
 /-- **every lexeme is progress**: `next` moves the lexer forward by at least one byte -/
 theorem nextWord_progress {buf : Buf} {pos : Nat} {w : Nat × Nat} (h : nextWord buf pos = .ok w) : pos < w.2 := by
@@ -294,7 +294,7 @@ theorem nextWord_progress {buf : Buf} {pos : Nat} {w : Nat × Nat} (h : nextWord
     | ok s =>
       rw [ht] at h
       simp only [Out.bind_ok] at h
-      obtain ⟨hle, htok⟩ := (tokenStart_spec buf pos).2 s ht
+      obtain ⟨hle, htok⟩ := (tokenStart_spec_xt buf pos).2 s ht
       have := lexemeAt_progress htok h
       omega
     | err => rw [ht] at h; simp at h
